@@ -49,7 +49,7 @@ QEMU_OFF_STATES_REGEX = re.compile(
 )
 #: on qemu states regex (>0 vm size)
 QEMU_ON_STATES_REGEX = re.compile(
-    r"^\d+\s+([\w\.-]+)\s*(?!0 B)(\d+e?[\-\+]?[\.\d]* \w+)\s+\d{4}-\d\d-\d\d",
+    r"^\d+\s+([\w\.-]+)\s*(?!0 B)(\d+[\.\d]*e?[\-\+]?[\.\d]* \w+)\s+\d{4}-\d\d-\d\d",
     flags=re.MULTILINE,
 )
 
